@@ -193,10 +193,16 @@ def build_cases(ctx):
     from harness.gen import c08docs, faults as F
     stats['scope-crossing'] = 0
     for name, text in sorted(c08docs.base_documents().items()):
-        for f in F.crossref_sites(F.parse(text)):
+        root = F.parse(text)
+        big = name in ('full', 'scopes')
+        ext = [f for f in F.extref_sites(root, rng, 1 if (big and quick) else None) if not f.get('empty')]
+        if name == 'full' and quick:
+            ext = []
+        for f in F.crossref_sites(root) + ext:
             cases.append({'scope': {'base': text, 'fault': f}, 'family': 'scope:' + name, 'clean': False, 'masks': [],
                           'spec': {'top': []}, 'uids': {}, 'scope_name': name})
-            stats['scope-crossing'] += 1
+            stats['scope-crossing' if f['kind'] == 'crossref' else 'foreign-reference'] = \
+                stats.get('scope-crossing' if f['kind'] == 'crossref' else 'foreign-reference', 0) + 1
     return cases, stats
 
 
